@@ -8,6 +8,21 @@ HOOK_COMMITS = subprocess.run(
 
 # id -> (built?, technique, level text, level note, design_ref)
 CHECKS = {
+ "C07": (True,
+   "metamorphic self-comparison of recorded histories: uninterrupted run vs run with breaks + inspections + CONT; state-equality hook after every inspection",
+   "Generated programs run once uninterrupted and again with host breaks at randomly chosen (2%/20%/100%) or exhaustively enumerated (all subsets of <= 10) turn boundaries, 0-3 side-effect-free inspection statements (including failing ones and failing user-function calls) and CONT; program outputs, consumed replies, outcome and final variables must be identical, and the snapshot hook must show the continuation-relevant state unchanged after every inspection. STOP + typed assignment + CONT is compared with the assignment written in place.",
+   "Inspections come from a fixed side-effect-free set; reading a non-existent array (which creates it) is excluded.",
+   "DESIGN.md §5 C07"),
+ "C10": (True,
+   "metamorphic pair with snapshot hooks: interpreter with session history vs fresh interpreter, compared at every turn of RUN",
+   "Random session histories (runs, failed runs, breaks incl. one between reply and next turn, immediate LET/DIM/FOR/GOSUB/GOTO/READ/CONT, edits) are followed by randomize(s)+RUN on the used interpreter and on a fresh interpreter holding the same lines; outputs, results, states and full runtime snapshots (variables, arrays, loops, frames, functions, data cursor, breakpoint, pending reply, rng) are compared at every turn.",
+   "String pool and output queue length are not compared.",
+   "DESIGN.md §5 C10"),
+ "C11": (True,
+   "invariant at a hook (snapshot after the edit) + probe statements on replayed histories",
+   "Generated programs are driven to every kind of suspension point, one edit is applied (targeted at the lines that hold the breakpoint, FOR, GOSUB return point, DEF, current DATA), the snapshot must hold no runtime reference while variables/arrays are unchanged, and CONT / RETURN / NEXT v / FN call / READ / GOTO are probed, each on its own replay; a rejected edit must leave state and continuation identical to a twin session.",
+   "Left-over frames without a pending breakpoint are not treated as live references (unobservable: every host line clears them first).",
+   "DESIGN.md §5 C11"),
  "C03": (True,
    "history + executable reference model: differential execution of generated programs against an independent AST interpreter (M-prog)",
    "Generated structured programs (all statement kinds of the property, feature interactions, deliberate runtime failures, cap-reaching recursion) are entered into a real interpreter, RUN to completion and compared with M-prog, an interpreter of the AST written from the documented semantics: exact printed output and (error kind, line). Held on the programs executed; known finding C03-KF1 is recognised by signature.",
